@@ -24,6 +24,8 @@ endings, hand-written and `migrate diff` output converted the way an autocrlf ch
 rtree) created in history and dropped in the window (evolution hand-written throughout); hand-written files that start
 with a UTF-8 byte order mark directly followed by a destructive / an additive first statement; hand-written files whose
 statements are wrapped in BEGIN TRANSACTION; .. END; / BEGIN; .. END; / BEGIN; .. COMMIT; / BEGIN TRANSACTION; .. COMMIT;.
+Also a table copy plus, in the same file and on the SAME table, a later ALTER .. DROP COLUMN of a column the copy kept / a
+later DROP TABLE, and / or an earlier ADD COLUMN of a column the copy leaves out (a temporary column).
 Pos is a byte offset (converted for BOM files); BEGIN .. END is ONE compound statement for Atlas' SQLite statement scanner,
 so a diagnostic anywhere inside such a block counts as "on the statement".
 
